@@ -31,13 +31,120 @@ def mentions(expr):
     return out
 
 
-class Atom(object):
-    """A normalised condition; hashable by ``key``."""
-    __slots__ = ('key', 'mentions')
+def copy_env(func_node):
+    """Local names assigned exactly once in the function (plain
+    ``name = expr``, not a loop / with / except target, not a parameter,
+    not augmented) -> their defining expression.  Used for copy
+    propagation so that ``x = app.traits; if x != 0`` normalises like
+    ``if app.traits != 0``."""
+    counts = {}
+    defs = {}
+    banned = set()
+    args = func_node.args
+    for arg in args.posonlyargs + args.args + args.kwonlyargs:
+        banned.add(arg.arg)
+    if args.vararg:
+        banned.add(args.vararg.arg)
+    if args.kwarg:
+        banned.add(args.kwarg.arg)
+    stack = list(func_node.body)
+    while stack:
+        node = stack.pop()
+        if isinstance(node, (ast.FunctionDef, ast.AsyncFunctionDef,
+                             ast.ClassDef, ast.Lambda)):
+            banned.add(getattr(node, 'name', ''))
+            continue
+        if isinstance(node, ast.Assign):
+            for tgt in node.targets:
+                if isinstance(tgt, ast.Name) and len(node.targets) == 1:
+                    counts[tgt.id] = counts.get(tgt.id, 0) + 1
+                    defs[tgt.id] = node.value
+                else:
+                    for leaf in ast.walk(tgt):
+                        if isinstance(leaf, ast.Name) and \
+                                isinstance(leaf.ctx, ast.Store):
+                            banned.add(leaf.id)
+        elif isinstance(node, (ast.AugAssign, ast.AnnAssign)):
+            for leaf in ast.walk(node.target):
+                if isinstance(leaf, ast.Name):
+                    banned.add(leaf.id)
+        elif isinstance(node, (ast.For, ast.AsyncFor)):
+            for leaf in ast.walk(node.target):
+                if isinstance(leaf, ast.Name):
+                    banned.add(leaf.id)
+        elif isinstance(node, (ast.With, ast.AsyncWith)):
+            for item in node.items:
+                if item.optional_vars is not None:
+                    for leaf in ast.walk(item.optional_vars):
+                        if isinstance(leaf, ast.Name):
+                            banned.add(leaf.id)
+        elif isinstance(node, ast.ExceptHandler) and node.name:
+            banned.add(node.name)
+        for sub in ast.walk(node) if isinstance(node, ast.expr) else []:
+            pass
+        for child in ast.iter_child_nodes(node):
+            if isinstance(child, (ast.comprehension,)):
+                for leaf in ast.walk(child.target):
+                    if isinstance(leaf, ast.Name):
+                        banned.add(leaf.id)
+            stack.append(child)
+    out = {}
+    for name, cnt in counts.items():
+        if cnt == 1 and name not in banned:
+            val = defs[name]
+            # only pure-looking definitions: names, attributes, constants,
+            # subscripts, arithmetic, and calls without keyword side
+            # effects are all accepted; a definition mentioning the name
+            # itself is not
+            if name in mentions(val):
+                continue
+            out[name] = val
+    return out
 
-    def __init__(self, key, ment=()):
+
+class _Subst(ast.NodeTransformer):
+    def __init__(self, env, depth=0):
+        self.env = env
+        self.depth = depth
+
+    def visit_Name(self, node):
+        if isinstance(node.ctx, ast.Load) and node.id in self.env and \
+                self.depth < 4:
+            import copy
+            val = copy.deepcopy(self.env[node.id])
+            return _Subst(self.env, self.depth + 1).visit(val)
+        return node
+
+    def visit_Lambda(self, node):
+        return node
+
+    def visit_ListComp(self, node):
+        return node
+
+    visit_SetComp = visit_DictComp = visit_GeneratorExp = visit_ListComp
+
+
+def subst(expr, env):
+    """Expression with single-assignment locals replaced by their
+    definitions (copy propagation); the input is not modified."""
+    if not env or expr is None:
+        return expr
+    import copy
+    if not (mentions(expr) & set(env)):
+        return expr
+    return _Subst(env).visit(copy.deepcopy(expr))
+
+
+class Atom(object):
+    """A normalised condition; hashable by ``key``.  ``raw`` is None for an
+    atom read directly from the source and, for the copy-propagated twin of
+    such an atom, the atom it was derived from."""
+    __slots__ = ('key', 'mentions', 'raw')
+
+    def __init__(self, key, ment=(), raw=None):
         self.key = key
         self.mentions = frozenset(ment)
+        self.raw = raw
 
     def __hash__(self):
         return hash(self.key)
@@ -291,10 +398,31 @@ class Normaliser(object):
     """Turns test expressions into atoms.  ``helpers`` is a VecHelpers (or
     None)."""
 
-    def __init__(self, helpers=None):
+    def __init__(self, helpers=None, env=None):
         self.helpers = helpers
+        self.env = env          # explicit copy-propagation environment
+
+    def env_of(self, node):
+        """Copy-propagation environment for a CFG node: the explicit one,
+        or the single-assignment locals of the node's function."""
+        if self.env is not None:
+            return self.env
+        graph = getattr(node, 'cfg', None)
+        if graph is None or graph.func is None:
+            return {}
+        if graph._copy_env is None:
+            graph._copy_env = copy_env(graph.func.node)
+        return graph._copy_env
+
+    def atom_at(self, node, expr=None):
+        """Atom of a test node (or of expr evaluated at that node) after
+        copy propagation of single-assignment locals."""
+        expr = node.ast if expr is None else expr
+        return self.atom(subst(expr, self.env_of(node)))
 
     def atom(self, expr):
+        if self.env:
+            expr = subst(expr, self.env)
         if isinstance(expr, ast.UnaryOp) and isinstance(expr.op, ast.Not):
             return negate(self.atom(expr.operand))
         if isinstance(expr, ast.Compare) and len(expr.ops) == 1:
@@ -331,7 +459,18 @@ class Normaliser(object):
         if edge.src.kind != 'test' or edge.kind not in ('true', 'false'):
             return []
         atom = self.atom(edge.src.ast)
-        return [atom if edge.kind == 'true' else negate(atom)]
+        if edge.kind != 'true':
+            atom = negate(atom)
+        out = [atom]
+        env = self.env_of(edge.src)
+        if env and (mentions(edge.src.ast) & set(env)):
+            twin = self.atom(subst(edge.src.ast, env))
+            if edge.kind != 'true':
+                twin = negate(twin)
+            if twin.key != atom.key:
+                twin.raw = atom
+                out.append(twin)
+        return out
 
     def formula(self, expr):
         """Boolean structure over atoms: ('and', [..]) / ('or', [..]) /
@@ -376,6 +515,12 @@ def negate(atom):
         nop = {'==': '!=', '!=': '==', '~=': '!~'}.get(oper, 'not' + oper)
         return Atom(('vec', nquant, nop, left, right), atom.mentions)
     raise ValueError(kind)
+
+
+def raw_only(facts):
+    """Facts read directly from the source (copy-propagated twins
+    dropped) - for rules that require an exact guard set."""
+    return [f for f in facts if f.raw is None]
 
 
 def show(atom):
